@@ -53,6 +53,9 @@ type FrameLoop struct {
 }
 
 func (fl *FrameLoop) Reset() {
+	fl.mu.Lock()
+	defer fl.mu.Unlock()
+
 	fl.currentIndex = 0
 	fl.oldest = 0
 	fl.bufferFull = false
